@@ -22,6 +22,18 @@ BUILT = {
     ),
 }
 
+BUILT["C02"] = (
+    "exploration",
+    "exhaustive enumeration of data-section layouts (full product of interacting axes + k-deviation ball), differential numpy vs normal engine on the real reader",
+    "Every generated layout of an unwrapped numeric data section (rows/cols 1..4, 12 numeric spellings, separators, "
+    "padding, blank/comment/whitespace-only lines before/between/after the rows, ~A last or followed by ~P/~O/custom "
+    "sections, section order, LF/CRLF, final newline or not) is read with both engines; they must both raise or return "
+    "bit-identical curves, NaN masks and header sections. Non-vacuity is measured with the LASIO_VERIF engine trace: only "
+    "files whose data really came from the numpy engine count as non-trivial.",
+    "Trusts the add-only engine-trace hook and the independent text renderer (lasgen); values outside the 12 spellings and "
+    "layouts beyond the stated deviation bound are not covered.",
+)
+
 PENDING_REASON = "check not built yet in this round (design in DESIGN.md section 3); nothing is claimed for it"
 
 
